@@ -441,6 +441,19 @@ func (m *vMonitor) exec(info *vVMInfo, inner test.SSHExecFunc, env map[string]st
 		return 255
 	}
 	vmid := string(info.id)
+	if !m.vmExists(info.id) {
+		// The cloud has destroyed this instance (test.StubVM keeps serving an
+		// established ssh connection after Destroy; a real machine that has
+		// been destroyed executes nothing). Thorough-tier false alarm, lead:
+		// a late Destroy of the previous generation removed the VM, the pool
+		// dropped its worker and restarted the container elsewhere, and the
+		// stub still "ran" the first --detach on the destroyed VM.
+		m.mu.Lock()
+		m.ev(gen, "cmd-on-destroyed-vm", vmid, vUUIDRe.FindString(cmd), "")
+		m.mu.Unlock()
+		fmt.Fprintln(stderr, "verif: connection lost (instance destroyed)")
+		return 255
+	}
 	switch {
 	case cmd == "true":
 		rc := inner(env, cmd, stdin, stdout, stderr)
@@ -628,12 +641,19 @@ func (m *vMonitor) detach(info *vVMInfo, gen int, inner test.SSHExecFunc, env ma
 	rc := inner(env, cmd, bytes.NewReader(stdinData), stdout, stderr)
 	close(stop)
 	res := <-resCh
+	vmGone := !m.vmExists(info.id) // not under m.mu: setupVM takes m.mu with the instance set locked
 
 	m.mu.Lock()
 	defer m.mu.Unlock()
 	m.ev(gen, "detach-done", vmid, uuid, fmt.Sprintf("rc=%d newpid=%d", rc, res.newPID))
 	if rc != 0 {
 		// the stub refused (booting / broken / no crunch-run): no process
+		return rc
+	}
+	if vmGone {
+		// the instance was destroyed while the command was being handled:
+		// whatever the stub created went away with the machine
+		m.ev(gen, "detach-on-destroyed-vm", vmid, uuid, "")
 		return rc
 	}
 	m.startsOK++
